@@ -422,8 +422,464 @@ func c07ValidProj(r *hx.Rng) string {
 	return strings.Join(parts, r.Pick([]string{",", " ", ", ", " , "}))
 }
 
+
+// ---------- structured expressions (kinds 5 and 6) ----------
+//
+// The generator builds the TREE first and prints it in the documented syntax
+// (bare word where the word has no special character, else a double-quoted Go
+// literal; juxtaposition or AND; OR; '-'; '*'; key:(v OR v); parentheses where
+// the grammar needs them, sometimes more), noting the byte offset of every key.
+// The case carries the intended tree, so the specification predicate can say
+// "the text denotes exactly these strings in exactly this structure" and, for
+// trees holding a semantic error (.config / empty key in a filter; .unit /
+// empty key / unknown order / .config with a list in a projection), "rejected
+// with an error positioned at one of the offending terms".
+
+type c07V struct {
+	S  string
+	Re bool
+}
+
+type c07N struct {
+	Op   int // 0 match, 1 and, 2 or, 3 not, 4 key:(v OR v ...)
+	Key  string
+	QK   int // key: 0 = bare if possible else quoted, 1 = quoted (strconv), 2 = quoted (canonical)
+	Vals []c07V
+	Subs []*c07N
+}
+
+func c07BareOK(w string, value bool) bool {
+	if w == "" || w == "AND" || w == "OR" {
+		return false
+	}
+	if strings.IndexByte(`-*"():@,`, w[0]) >= 0 || (value && w[0] == '/') {
+		return false
+	}
+	for _, r := range w {
+		if r == 0xFFFD || r < 0x21 || r == 0x7f || unicode.IsSpace(r) || strings.ContainsRune(`():@,"`, r) {
+			return false
+		}
+	}
+	return true
+}
+
+func c07Word(r *hx.Rng, w string, value bool, q int) string {
+	if q == 0 && c07BareOK(w, value) {
+		return w
+	}
+	if q == 2 || (q == 0 && r.Chance(0.5)) {
+		return c07Canon(w)
+	}
+	return strconv.Quote(w)
+}
+
+type c07Pr struct {
+	b strings.Builder
+	r *hx.Rng
+}
+
+func (p *c07Pr) val(v c07V) hx.Sx {
+	if v.Re {
+		p.b.WriteString("/" + v.S + "/")
+		return hx.L(hx.I(1), hx.S(v.S))
+	}
+	p.b.WriteString(c07Word(p.r, v.S, true, p.r.Intn(2)*p.r.Intn(3)))
+	return hx.L(hx.I(0), hx.S(v.S))
+}
+
+// term: something that can stand after '-' or inside an AND sequence
+func (p *c07Pr) term(n *c07N) hx.Sx {
+	if p.r.Chance(0.08) { // parentheses that change nothing
+		p.b.WriteString("(")
+		x := p.expr(n)
+		p.b.WriteString(")")
+		return x
+	}
+	switch n.Op {
+	case 0:
+		off := p.b.Len()
+		p.b.WriteString(c07Word(p.r, n.Key, false, n.QK))
+		p.b.WriteString(p.r.Pick([]string{":", ":", ":", " :", ": ", " : "}))
+		m := p.val(n.Vals[0])
+		return hx.L(hx.I(0), hx.S(n.Key), m, hx.I(off))
+	case 4:
+		off := p.b.Len()
+		p.b.WriteString(c07Word(p.r, n.Key, false, n.QK))
+		p.b.WriteString(p.r.Pick([]string{":(", ":(", ":( ", ": ("}))
+		var ms []hx.Sx
+		for i, v := range n.Vals {
+			if i > 0 {
+				p.b.WriteString(" OR ")
+			}
+			ms = append(ms, hx.L(hx.I(0), hx.S(n.Key), p.val(v), hx.I(off)))
+		}
+		p.b.WriteString(p.r.Pick([]string{")", ")", " )"}))
+		return hx.L(hx.I(2), hx.List(ms))
+	case 3:
+		p.b.WriteString("-")
+		return hx.L(hx.I(3), p.term(n.Subs[0]))
+	}
+	if n.Op == 1 && len(n.Subs) == 0 {
+		p.b.WriteString("*")
+		return hx.L(hx.I(1), hx.L())
+	}
+	p.b.WriteString("(")
+	x := p.expr(n)
+	p.b.WriteString(")")
+	return x
+}
+
+// seq: an operand of OR - an AND sequence may stand bare
+func (p *c07Pr) seq(n *c07N) hx.Sx {
+	if n.Op != 1 || len(n.Subs) < 2 {
+		return p.term(n)
+	}
+	var l []hx.Sx
+	for i, s := range n.Subs {
+		if i > 0 {
+			p.b.WriteString(p.r.Pick([]string{" ", " ", " AND ", "  ", "\t"}))
+		}
+		l = append(l, p.term(s))
+	}
+	return hx.L(hx.I(1), hx.List(l))
+}
+
+func (p *c07Pr) expr(n *c07N) hx.Sx {
+	if n.Op != 2 || len(n.Subs) < 2 {
+		return p.seq(n)
+	}
+	var l []hx.Sx
+	for i, s := range n.Subs {
+		if i > 0 {
+			p.b.WriteString(" OR ")
+		}
+		l = append(l, p.seq(s))
+	}
+	return hx.L(hx.I(2), hx.List(l))
+}
+
+var c07SKeys = []string{"a", "goos", ".name", ".fullname", ".unit", "/k", "/gomaxprocs", "c d", "c", "AND", "OR", "a\"b", "x\\", "-x", "*", "é", "\xff", "(", "a:b", "k@", ",", "pkg", "a/b", "x-y"}
+var c07SVals = []string{"v", "b", "x y", "", "AND", "OR", "a\"b", "\\", "-v", "*", "/x", "é", "\xff", ")", "1", "a:b", "x-y", "a OR b"}
+var c07SRes = []string{"a.*", "[/]x", "(a|b)", "^x$", "", "a\\/b", "[)]"}
+
+func c07RandV(r *hx.Rng, litOnly bool) c07V {
+	if !litOnly && r.Chance(0.2) {
+		return c07V{S: r.Pick(c07SRes), Re: true}
+	}
+	return c07V{S: r.Pick(c07SVals)}
+}
+
+func c07GoodTerm(r *hx.Rng) *c07N {
+	n := &c07N{Key: r.Pick(c07SKeys), QK: []int{0, 0, 1, 2}[r.Intn(4)]}
+	if r.Chance(0.25) {
+		n.Op = 4
+		for i, k := 0, r.Range(1, 3); i < k; i++ {
+			n.Vals = append(n.Vals, c07RandV(r, false))
+		}
+		return n
+	}
+	n.Vals = []c07V{c07RandV(r, false)}
+	return n
+}
+
+func c07RandTree(r *hx.Rng, depth int) *c07N {
+	if depth <= 0 || r.Chance(0.3) {
+		if r.Chance(0.06) {
+			return &c07N{Op: 1}
+		}
+		return c07GoodTerm(r)
+	}
+	switch r.Intn(5) {
+	case 0:
+		return &c07N{Op: 3, Subs: []*c07N{c07RandTree(r, depth-1)}}
+	case 1, 2:
+		n := &c07N{Op: 1}
+		for i, k := 0, r.Range(2, 4); i < k; i++ {
+			n.Subs = append(n.Subs, c07RandTree(r, depth-1))
+		}
+		return n
+	}
+	n := &c07N{Op: 2}
+	for i, k := 0, r.Range(2, 3); i < k; i++ {
+		n.Subs = append(n.Subs, c07RandTree(r, depth-1))
+	}
+	return n
+}
+
+// the semantic errors of filters, as terms
+func c07BadTerms() []*c07N {
+	lit := func(s ...string) []c07V {
+		var l []c07V
+		for _, x := range s {
+			l = append(l, c07V{S: x})
+		}
+		return l
+	}
+	m := func(k string, v c07V) *c07N { return &c07N{Key: k, Vals: []c07V{v}} }
+	return []*c07N{
+		m(".config", c07V{S: "v"}),
+		m(".config", c07V{S: "x y"}),
+		m(".config", c07V{S: "a.*", Re: true}),
+		{Op: 4, Key: ".config", Vals: lit("a", "b")},
+		{Op: 4, Key: ".config", Vals: lit("x y", "z")},
+		{Op: 4, Key: ".config", QK: 1, Vals: lit("a", "b", "c")},
+		{Op: 4, Key: ".config", Vals: []c07V{{S: "a", Re: true}, {S: "b"}}},
+		{Op: 4, Key: ".config", Vals: lit("a")},
+		{Op: 2, Subs: []*c07N{m(".config", c07V{S: "a"}), m(".config", c07V{S: "b"})}},
+		{Op: 2, Subs: []*c07N{m(".config", c07V{S: "a"}), m(".config", c07V{S: "b c"}), m(".config", c07V{S: "c"})}},
+		m("", c07V{S: "v"}),
+		{Op: 4, Key: "", Vals: lit("a", "b")},
+	}
+}
+
+// templates with slots: every position a term can take
+func c07Templates() []func(s []*c07N) *c07N {
+	and := func(x ...*c07N) *c07N { return &c07N{Op: 1, Subs: x} }
+	or := func(x ...*c07N) *c07N { return &c07N{Op: 2, Subs: x} }
+	not := func(x *c07N) *c07N { return &c07N{Op: 3, Subs: []*c07N{x}} }
+	return []func(s []*c07N) *c07N{
+		func(s []*c07N) *c07N { return s[0] },
+		func(s []*c07N) *c07N { return not(s[0]) },
+		func(s []*c07N) *c07N { return and(s[0], s[1], s[2]) },
+		func(s []*c07N) *c07N { return or(s[0], s[1], s[2]) },
+		func(s []*c07N) *c07N { return and(s[0], or(s[1], s[2])) },
+		func(s []*c07N) *c07N { return or(not(and(s[0], s[1])), s[2]) },
+		func(s []*c07N) *c07N { return and(s[0], not(or(s[1], and(s[2], s[3])))) },
+		func(s []*c07N) *c07N { return or(and(s[0], s[1]), and(s[2], not(s[3]))) },
+	}
+}
+
+var c07TemplateSlots = []int{1, 1, 3, 3, 3, 3, 4, 4}
+
+func c07SFilter(o *hx.Out, r *hx.Rng, n *c07N, fam string) {
+	p := &c07Pr{r: r}
+	want := p.expr(n)
+	q := p.b.String()
+	fp := c07ParseFilter(q)
+	nf := c07NewFilter(q)
+	c := hx.L(hx.I(5), hx.S(q), c07Oracle(q), want, fp, nf)
+	o.Count(fmt.Sprintf("sfilter %s parse_ok=%v new_ok=%v", fam, fp.Text()[:2] == "(0", nf.Text()[:2] == "(0"))
+	o.Add(c, c07Input{Kind: "sfilter:" + fam, Expr: strconv.QuoteToASCII(q), ExprX: fmt.Sprintf("%x", q)}, "s"+q, true)
+	c07StopIfHung(o)
+}
+
+// projections
+type c07F struct {
+	Key   string
+	QK    int
+	Order string // "" = none written
+	QO    bool
+	Fixed []string
+}
+
+func c07SProj(o *hx.Out, r *hx.Rng, fs []c07F, seps []string, fam string) {
+	var b strings.Builder
+	var want []hx.Sx
+	for i, f := range fs {
+		if i > 0 {
+			b.WriteString(seps[(i-1)%len(seps)])
+		}
+		koff := b.Len()
+		b.WriteString(c07Word(r, f.Key, false, f.QK))
+		ooff := koff + len(f.Key)
+		order := "first"
+		switch {
+		case f.Fixed != nil:
+			b.WriteString(r.Pick([]string{"@", "@", " @", "@ "}))
+			ooff = b.Len()
+			order = "fixed"
+			b.WriteString(r.Pick([]string{"(", "(", "( "}))
+			for j, w := range f.Fixed {
+				if j > 0 {
+					b.WriteString(r.Pick([]string{" ", " ", "  ", "\t"}))
+				}
+				b.WriteString(c07Word(r, w, false, r.Intn(2)*r.Intn(3)))
+			}
+			b.WriteString(r.Pick([]string{")", ")", " )"}))
+		case f.Order != "":
+			b.WriteString(r.Pick([]string{"@", "@", "@", " @", "@ "}))
+			ooff = b.Len()
+			order = f.Order
+			if f.QO {
+				b.WriteString(strconv.Quote(f.Order))
+			} else {
+				b.WriteString(f.Order)
+			}
+		}
+		want = append(want, hx.L(hx.S(f.Key), hx.S(order), hx.SList(f.Fixed), hx.I(koff), hx.I(ooff)))
+	}
+	q := b.String()
+	pp := c07ParseProjection(q)
+	np := c07NewProjection(q)
+	c := hx.L(hx.I(6), hx.S(q), hx.List(want), pp, np)
+	o.Count(fmt.Sprintf("sproj %s parse_ok=%v new_ok=%v", fam, pp.Text()[:2] == "(0", np.Text()[:2] == "(0"))
+	o.Add(c, c07Input{Kind: "sproj:" + fam, Expr: strconv.QuoteToASCII(q), ExprX: fmt.Sprintf("%x", q)}, "p"+q, true)
+	c07StopIfHung(o)
+}
+
+var c07PKeys = []string{".name", "pkg", "a b", "/k", ".fullname", ".config", "/size", "/gomaxprocs", "é", "AND", "/q r", "x-y", "a\"b", "*", "-k"}
+
+func c07RandField(r *hx.Rng) c07F {
+	f := c07F{Key: r.Pick(c07PKeys), QK: []int{0, 0, 0, 1, 2}[r.Intn(5)]}
+	switch r.Intn(6) {
+	case 0:
+		f.Order = r.Pick([]string{"alpha", "num", "first"})
+		f.QO = r.Chance(0.2)
+	case 1:
+		if f.Key != ".config" {
+			for i, k := 0, r.Range(1, 3); i < k; i++ {
+				f.Fixed = append(f.Fixed, r.Pick(c07SVals))
+			}
+		}
+	}
+	return f
+}
+
+func c07Structured(o *hx.Out, r *hx.Rng, tier string) {
+	mul := 1
+	if tier == "thorough" {
+		mul = 20
+	}
+	m := func(k string, qk int) *c07N { return &c07N{Key: k, QK: qk, Vals: []c07V{c07RandV(r, true)}} }
+	// (C07-b) quoted keys in every position of an AND sequence, bare, in parentheses,
+	// under '-', as operand of OR
+	keys := []string{"a", "c d", "c", "goos", "x:y"}
+	for rep := 0; rep < mul; rep++ {
+		for nt := 2; nt <= 3; nt++ {
+			for mask := 0; mask < 1<<nt; mask++ {
+				for wrap := 0; wrap < 6; wrap++ {
+					seq := &c07N{Op: 1}
+					for i := 0; i < nt; i++ {
+						qk := 0
+						if mask&(1<<i) != 0 {
+							qk = 1 + r.Intn(2)
+						}
+						seq.Subs = append(seq.Subs, m(keys[r.Intn(len(keys))], qk))
+					}
+					var n *c07N
+					switch wrap {
+					case 0:
+						n = seq
+					case 1:
+						n = &c07N{Op: 1, Subs: []*c07N{m("x", 0), seq}}
+					case 2:
+						n = &c07N{Op: 3, Subs: []*c07N{seq}}
+					case 3:
+						n = &c07N{Op: 2, Subs: []*c07N{seq, m("x", 0)}}
+					case 4:
+						n = &c07N{Op: 2, Subs: []*c07N{m("x", 0), seq}}
+					default:
+						n = &c07N{Op: 1, Subs: []*c07N{{Op: 2, Subs: []*c07N{seq, m("y", 1)}}, m("z", 1)}}
+					}
+					c07SFilter(o, r, n, "quoted-key-sequence")
+				}
+			}
+		}
+	}
+	// (C07-a) every semantic rejection at every position of every template
+	for rep := 0; rep < mul; rep++ {
+		for ti, t := range c07Templates() {
+			for slot := 0; slot < c07TemplateSlots[ti]; slot++ {
+				for _, bad := range c07BadTerms() {
+					var sl []*c07N
+					for i := 0; i < c07TemplateSlots[ti]; i++ {
+						if i == slot {
+							sl = append(sl, bad)
+						} else {
+							sl = append(sl, c07GoodTerm(r))
+						}
+					}
+					c07SFilter(o, r, t(sl), "rejection-at-slot")
+				}
+			}
+		}
+	}
+	// random trees, good and with one or two terms made bad
+	for i := 0; i < 500*mul; i++ {
+		c07SFilter(o, r, c07RandTree(r, r.Range(1, 4)), "random")
+	}
+	bads := c07BadTerms()
+	for i := 0; i < 250*mul; i++ {
+		ts := c07Templates()
+		ti := r.Intn(len(ts))
+		var sl []*c07N
+		nb := 0
+		for j := 0; j < c07TemplateSlots[ti]; j++ {
+			if r.Chance(0.35) {
+				sl = append(sl, bads[r.Intn(len(bads))])
+				nb++
+			} else {
+				sl = append(sl, c07RandTree(r, r.Range(0, 2)))
+			}
+		}
+		if nb == 0 {
+			sl[r.Intn(len(sl))] = bads[r.Intn(len(bads))]
+		}
+		c07SFilter(o, r, ts[ti](sl), "random-with-rejections")
+	}
+
+	// (C07-b) projections: two fields, the second an unquoted /key, every separator
+	seps := []string{" ", "\t", "  ", ",", ", ", " , "}
+	for rep := 0; rep < mul; rep++ {
+		for _, k1 := range []string{".name", "pkg", "a b", "/k", ".fullname", ".config"} {
+			for _, k2 := range []string{"/size", "/gomaxprocs", "/k", "/q r", ".name"} {
+				for _, sep := range seps {
+					for ord := 0; ord < 3; ord++ {
+						f1 := c07F{Key: k1}
+						if r.Chance(0.3) {
+							f1.Order = "alpha"
+						}
+						f2 := c07F{Key: k2}
+						switch ord {
+						case 1:
+							f2.Order = "num"
+						case 2:
+							f2.Fixed = []string{"a", r.Pick(c07SVals)}
+						}
+						fam := "slash-key-after-space"
+						if strings.Contains(sep, ",") {
+							fam = "slash-key-after-comma"
+						}
+						c07SProj(o, r, []c07F{f1, f2}, []string{sep}, fam)
+					}
+				}
+			}
+		}
+	}
+	for i := 0; i < 300*mul; i++ {
+		var fs []c07F
+		for j, k := 0, r.Range(1, 4); j < k; j++ {
+			fs = append(fs, c07RandField(r))
+		}
+		c07SProj(o, r, fs, []string{r.Pick(seps), r.Pick(seps)}, "random")
+	}
+	// (C07-a) the semantic rejections of projections at every position
+	badF := []c07F{{Key: ".unit"}, {Key: ".unit", Order: "alpha"}, {Key: ".unit", Fixed: []string{"a", "b"}}, {Key: "", QK: 1},
+		{Key: "k", Order: "bogus"}, {Key: "k", Order: "bogus", QO: true}, {Key: ".config", Fixed: []string{"a", "b"}},
+		{Key: ".fullname", Order: "Alpha"}, {Key: "/k", Order: "numeric"}, {Key: ".unit", Order: "bogus"}, {Key: "", QK: 2, Fixed: []string{"x"}}}
+	for rep := 0; rep < mul; rep++ {
+		for total := 1; total <= 3; total++ {
+			for pos := 0; pos < total; pos++ {
+				for _, bf := range badF {
+					for _, sep := range []string{",", " "} {
+						var fs []c07F
+						for j := 0; j < total; j++ {
+							if j == pos {
+								fs = append(fs, bf)
+							} else {
+								fs = append(fs, c07RandField(r))
+							}
+						}
+						c07SProj(o, r, fs, []string{sep}, "rejection-at-position")
+					}
+				}
+			}
+		}
+	}
+}
+
 func genC07(o *hx.Out, r *hx.Rng, tier string, replay string) error {
-	o.Rule = "(d) quoted AND/OR/and/ANDx... as key, value, in value lists, as projection key and in fixed-order lists; (e) bare words over ASCII, letters whose UTF-8 contains 0x85/0xA0, U+0085/U+00A0/U+2003, raw 0x85/0xA0/0xff and the special characters, as key, value, projection key and fixed-list member; " + "(a) the table of unicode.IsSpace over all runes; (b) quoting: every string up to a length bound over the alphabet {\" \\ space ( ) : @ , - * / a 0xff é} as key (with a random value) and as value (with a random key), quoted canonically and by strconv.Quote, parsed as filter key:value and as projection, then matched / projected on a result holding the string; (c) expressions: grammar-generated valid filters and projections, token soup from a piece list (escapes, regexps, operators, Unicode spaces, semantic corner keys) with byte noise. non-trivial = parses as filter or projection (expressions), non-empty string (quoting)"
+	o.Rule = "(d) quoted AND/OR/and/ANDx... as key, value, in value lists, as projection key and in fixed-order lists; (e) bare words over ASCII, letters whose UTF-8 contains 0x85/0xA0, U+0085/U+00A0/U+2003, raw 0x85/0xA0/0xff and the special characters, as key, value, projection key and fixed-list member; " + "(a) the table of unicode.IsSpace over all runes; (b) quoting: every string up to a length bound over the alphabet {\" \\ space ( ) : @ , - * / a 0xff é} as key (with a random value) and as value (with a random key), quoted canonically and by strconv.Quote, parsed as filter key:value and as projection, then matched / projected on a result holding the string; (f) structured expressions: the tree is generated first and printed in the documented syntax (bare or double-quoted words, juxtaposition/AND, OR, -, *, key:(v OR v), parentheses), with the offsets of the keys: quoted keys at every position of AND sequences (bare, parenthesised, negated, as OR operand); every semantic rejection of filters (.config with a literal, a regexp, a value list of 1-3 values, an OR of 2-3 .config terms, quoted; the empty key) at every slot of 8 templates and in random trees; projections as field lists printed with every separator (blank, tab, comma) incl. an unquoted /key after white space only, with orders and fixed lists, and every semantic rejection (.unit, empty key, unknown order, .config with a list) at every position; (c) expressions: grammar-generated valid filters and projections, token soup from a piece list (escapes, regexps, operators, Unicode spaces, semantic corner keys) with byte noise. non-trivial = parses as filter or projection (expressions), non-empty string (quoting)"
 	// (a) IsSpace table
 	var sp []hx.Sx
 	for c := rune(0); c <= unicode.MaxRune; c++ {
@@ -551,5 +1007,18 @@ func genC07(o *hx.Out, r *hx.Rng, tier string, replay string) error {
 			c07Expr(o, c07Soup(r), "soup")
 		}
 	}
+	// (f) structured expressions; own generator so that the streams above keep their cases
+	g := r.Split()
+	for _, p := range c07Pieces2 {
+		c07Expr(o, p, "piece")
+	}
+	c07Structured(o, g, tier)
 	return nil
+}
+
+// pieces added for the gap classes (kept apart from c07Pieces so that the soup keeps its distribution)
+var c07Pieces2 = []string{
+	".config:(a OR b)", "goos:linux -(.config:(\"x y\" OR z))", ".config:a OR .config:b", "\".config\":(a OR b OR c)", "k:v (.config:(/a/ OR b))",
+	".config:(a)", "\"\":(a OR b)", "a:b \"c d\":e", "(a:b AND \"c\":d)", "a:b AND \"c d\":e \"f\":g", "-(a:b \"c\":d)",
+	".name /size", "pkg /gomaxprocs@num", ".name\t/size", "pkg /k@(a b) /j", "\"a b\" /size", ".name /size,.unit", "pkg /k@bogus", "goos .config@(a b)",
 }
